@@ -408,12 +408,12 @@ Fixpoint add_fundamentals (syms : list text) (idx : Z) (used : list text) (acc :
   | [] => Ok (acc, used, idx)
   | s :: r =>
     match s with
-    | [] => Err ValueErr
+    | [] => Err ParseErr
     | _ =>
-      if text_mem s used then Err ValueErr
+      if text_mem s used then Err ParseErr
       else
         let syn := case_synonyms s in
-        if existsb (fun y => text_mem y (s :: used)) syn then Err ValueErr
+        if existsb (fun y => text_mem y (s :: used)) syn then Err ParseErr
         else add_fundamentals r (idx + 1) (used ++ s :: syn) (acc ++ [mkState idx s Fundamental [] syn])
     end
   end.
@@ -432,7 +432,7 @@ Definition build_alphabet (symbols : text) (gap missing : tok) : res alphabet :=
               | _ => if is_infix gap symbols then filter (fun s => negb (text_eqb s gap)) syms0 else syms0
               end in
   match syms with
-  | [] => Ok (mkAlphabet [] [] false None None)     (* `if fundamental_states:` is false: empty alphabet *)
+  | [] => Err ParseErr                              (* No state symbols defined for STANDARD data type *)
   | _ =>
     do x <- add_fundamentals syms 0 [] [] ;;
     let '(fs, used, n) := x in
@@ -445,10 +445,10 @@ Definition build_alphabet (symbols : text) (gap missing : tok) : res alphabet :=
     match missing with
     | [] => Ok (mkAlphabet fs1 (fullmap_of fs1) false gapi None)
     | _ =>
-      if text_mem missing used1 then Err ValueErr
+      if text_mem missing used1 then Err ParseErr
       else
         let syn := case_synonyms missing in
-        if existsb (fun s => text_mem s (missing :: used1)) syn then Err ValueErr
+        if existsb (fun s => text_mem s (missing :: used1)) syn then Err ParseErr
         else
           let all := fs1 ++ [mkState n1 missing Ambiguous (map s_index fs1) syn] in
           Ok (mkAlphabet all (fullmap_of all) false gapi (Some n1))
@@ -632,17 +632,21 @@ Fixpoint row_extend (i : nat) (x : list Z) (rows : nrows) : nrows :=
   | (j, v) :: r => if Nat.eqb i j then (j, v ++ x) :: r else (j, v) :: row_extend i x r
   end.
 
-(* _process_discrete_matrix_data: both loops *)
+(* _process_discrete_matrix_data: both loops.  After the interleaved loop every row must have
+   reached NCHAR (`rows_complete`); the sequential loop checks each row as it goes. *)
 Fixpoint matrix_loop (fuel : nat) (st : nx_state) (a : alphabet) (nchar : Z) (rows : nrows)
          (first : option nat) (toks : list tok) : res (nx_state * alphabet * nrows * list tok) :=
+  let rows_complete (x : nx_state * alphabet * nrows * list tok) :=
+    if forallb (fun r : nat * list Z => nchar <=? len (snd r)) (snd (fst x)) then Ok x else Err ParseErr in
   match fuel with
   | O => OutOfFuel
   | S f =>
     match next_tok (x_cap st) toks with
-    | None => if x_interleave st then Ok (st, a, rows, [])
+    | None => if x_interleave st then rows_complete (st, a, rows, [])
               else Err ParseErr                  (* MATRIX statement not terminated by ';' *)
     | Some (t, r) =>
-      if text_eqb t t_semi then Ok (st, a, rows, r)
+      if text_eqb t t_semi then
+        (if x_interleave st then rows_complete (st, a, rows, r) else Ok (st, a, rows, r))
       else
         do x <- get_taxon st t ;;
         let (st1, i) := x in
@@ -655,8 +659,8 @@ Fixpoint matrix_loop (fuel : nat) (st : nx_state) (a : alphabet) (nchar : Z) (ro
         | RsTerminated a' r' =>
           if x_interleave st2 then
             match next_tok (x_cap st2) r' with
-            | None => Ok (st2, a', rows1, [])
-            | Some (_, r'') => Ok (st2, a', rows1, r'')
+            | None => rows_complete (st2, a', rows1, [])
+            | Some (_, r'') => rows_complete (st2, a', rows1, r'')
             end
           else Err OtherErr                                  (* BlockTerminatedException escapes *)
         | RsDone acc a' r' =>
